@@ -3,6 +3,7 @@ import Typegen.ProjectSpec
 import Typegen.Classes
 import Typegen.TsSyntax
 import Driver.Types
+import Typegen.ShapeFile
 /-! run-time oracles of the project-level properties, evaluated on the *real* generated files -/
 open Lean
 namespace Drv
@@ -37,7 +38,7 @@ structure ProjOracles where
   results : List (String × Bool)
   classes : List String
 
-def projectOracles (p : Project) (cfg : Gn.Config) (a : Analysis) (implFiles : Json) (generated : Json) : ProjOracles :=
+def projectOracles (p : Project) (cfg : Gn.Config) (a : Analysis) (implFiles : Json) (generated : Json) (altTypes : Option Str := none) : ProjOracles :=
   let specCmds := specCommands p
   let anyCommands := !(imp_commands_empty a)
   let types := fileToks implFiles "types.ts"
@@ -211,7 +212,20 @@ def projectOracles (p : Project) (cfg : Gn.Config) (a : Analysis) (implFiles : J
     (if keys.any (fun k => !T.isTsIdentName k && !(T.jsReserved.contains k && k.all T.isIdChar)) then ["K01c_nonIdentifierKey"] else []) ++
     (if enumLits.any (fun k => k.contains '"' || k.contains '\\') then ["K01e_quoteInLiteral"] else []) ++
     (if a.structs.any (fun st => st.isEnum && st.fields.isEmpty) then ["emptyEnum"] else [])
-  { results := c03 ++ c12 ++ c07 ++ c09 ++ c02 ++ c04 ++ c01, classes := classes }
+  -- C10: the plain-mode and the Zod-mode `types.ts` of the same analysis, item by item
+  let c10 : List (String × Bool) :=
+    match fileText "types.ts", altTypes with
+    | some here, some alt =>
+      let (tsT, zodT) := if cfg.zod then (alt, here) else (here, alt)
+      let c := ZF.compare tsT zodT
+      [("c10_names", c.names), ("c10_keys", c.keys), ("c10_shapes", c.shapes), ("c10_shapes_mod_known", c.shapesModKnown), ("c10_enum_literals", c.enums)]
+    | _, _ => []
+  let structTs : List L.TS := (a.structs.flatMap fun st => st.fields.map fun f => Gn.tsOfStr f.rustType) ++
+    (a.commands.flatMap fun c => c.params.map fun prm => Gn.tsOfStr prm.rustType)
+  let classes := classes ++
+    (if structTs.any hasSet then ["K10a_set"] else []) ++
+    (if structTs.any hasResult then ["K10b_resultUnion"] else [])
+  { results := c03 ++ c12 ++ c07 ++ c09 ++ c02 ++ c04 ++ c01 ++ c10, classes := classes }
 where
   imp_commands_empty (a : Analysis) : Bool := a.commands.isEmpty
 
@@ -239,9 +253,18 @@ def opProject (inp imp : Json) : Except String Json := do
     (implNames.filter fun n => !(modelFiles.any fun m => m.1 == n))
   let agree := diffA.isEmpty && diffF.isEmpty
   let generated := (imp.getObjVal? "generated").toOption.getD Json.null
-  let orc := projectOracles p cfg a implFiles generated
+  let implAlt : Option Str := match imp.getObjVal? "alt_types" with | .ok (.str t) => some t.toList | _ => none
+  let orc := projectOracles p cfg a implFiles generated implAlt
   let modelFilesJ := Json.mkObj (modelFiles.map fun (n, t) => (n, jstr t))
-  let orcM := projectOracles p cfg a modelFilesJ (obj [("ok", jSs (modelFiles.map (·.1)))])
+  let outAlt := Gn.generate { cfg with zod := !cfg.zod } a
+  let modelAlt : Option Str := if noCommands then none else some (Gn.fileText outAlt.types)
+  let altAgree := match implAlt, modelAlt with
+    | some x, some y => squash (dropHeader x) == squash y
+    | none, none => true
+    | _, _ => false
+  let agree := agree && altAgree
+  let diffF := diffF ++ (if altAgree then [] else ["alt_types"])
+  let orcM := projectOracles p cfg a modelFilesJ (obj [("ok", jSs (modelFiles.map (·.1)))]) modelAlt
   pure <| obj [("model", obj [("analysis", mj), ("files", Json.mkObj (modelFiles.map fun (n, t) => (n, jstr t)))]),
     ("agree", jb agree), ("diff", jSs (diffA ++ diffF)),
     ("oracle_impl", obj (orc.results.map fun r => (r.1, jb r.2))),
